@@ -18,7 +18,7 @@ EXPLANATION = (
     "F8 formatters that report the dequeued step reset/drain their queue at every boundary. " + T.SOUNDNESS)
 NOT_DECIDED = ("the bytes of plain/progress/pretty output; JSON validity of user-provided values (json.dumps); "
                "make_formatters stream pairing; outline/rule elements are not part of the JSON format")
-TECHNIQUE = "static analysis: typestate monitors over the emitting run methods (abstract interpretation), abstract evaluation of the JSON formatter on a protocol script, writer/reader key agreement, table coverage and queue-reset effect rules"
+TECHNIQUE = "static analysis: typestate monitors over the emitting run methods (abstract interpretation), abstract evaluation of the JSON formatter on a protocol script, writer/reader key agreement, table coverage and queue-reset effect rules; static constant propagation of the string-level glue (the source interpreted on enumerated literal inputs, stdlib calls folded) against oracles written in the rule"
 
 
 def t_fmt(chk, ix):
